@@ -27,5 +27,9 @@
 mod route_pattern;
 mod route_uri;
 
+#[cfg(kani)]
+#[path = "/verif/kani/shim/collections.rs"]
+pub(crate) mod verif_shim;
+
 pub use route_pattern::{ApplyError, ParseError, RoutePattern, UnapplyError};
 pub use route_uri::{InvalidRouteUri, RouteUri};
